@@ -207,6 +207,13 @@ def _legacy_empty(expr, theta_arg, sa, literals):
         if isinstance(e0, dict) and e0.get("k") == "Bin" and e0.get("op") == "&&":
             return expand(e0["l"], depth) + expand(e0["r"], depth)
         return [e0]
+    # named conditions read as the condition itself, in negation normal form (`!has_data` with has_data = a || b is !a && !b)
+    try:
+        import validators
+        bl = {d: e for d, e in sa.items() if True}
+        expr = validators._inline_bools(expr, {d: e for d, e in bl.items() if isinstance(e, dict) and (e.get("t") or "").replace("const ", "") == "bool"})
+    except Exception:
+        pass
     lits = expand(expr)
     t = " && ".join(txt(l) for l in lits)
     th = strip_all(theta_arg)
@@ -519,17 +526,27 @@ def estimation_state_written(facts):
         if not gpl:
             return None
         env2 = dict(env, compressed=False)
-        for s in stmts_of(gpl[0]["body"]):
-            if s.get("k") == "If":
-                c = ev(s["c"], env2, {})
-                if c is None:
-                    return None
-                if c:
-                    r = [x for x in stmts_of(s["t"]) if x.get("k") == "Return"]
-                    return ev(r[0]["e"], env2, {}) if r else None
-            if s.get("k") == "Return":
-                return ev(s["e"], env2, {})
-        return None
+        gdecls = local_decls(gpl[0])      # locals of the helper (a hoisted is_estimation_mode()) read as their initialisers
+
+        def run(stmts):
+            for s in stmts:
+                if s.get("k") == "If":
+                    c = ev(s["c"], env2, gdecls)
+                    if c is None:
+                        return None
+                    br = s.get("t") if c else s.get("e")
+                    if br is not None:
+                        r = run(stmts_of(br) if br.get("k") == "Block" else [br])
+                        if r is not None:
+                            return r
+                elif s.get("k") == "Return":
+                    return ev(s["e"], env2, gdecls)
+                elif s.get("k") == "Block":
+                    r = run(stmts_of(s))
+                    if r is not None:
+                        return r
+            return None
+        return run(stmts_of(gpl[0]["body"]))
     for pat, fn in sorted(fns.items()):
         if fn["name"] != "serialize" or not any(x in fn["qname"] for x in ("compact_theta_sketch_alloc", "compact_tuple_sketch")) or "array" in fn["qname"]:
             continue
